@@ -19,7 +19,7 @@ Definition item_cost (r : rstate) (it : option item) : N := match it with Some (
 Lemma connect_time cfg d w : w_now w <= d ->
   match connect cfg d w with COk _ w' | CErr _ w' => w_now w <= w_now w' <= d end.
 Proof.
-  intros Hd. unfold connect. destruct (w_scripts w) as [|s rest]; [cbn; lia|]. destruct (cs_refused s); [cbn; lia|].
+  intros Hd. unfold connect. destruct (w_scripts w) as [|s rest]; [cbn; lia|]. destruct (cs_refused s); [cbn; lia|]. destruct (cs_silent s); [cbn; lia|].
   cbv zeta. cbn [w_conns w_scripts w_cur w_now w_log].
   match goal with |- context [seq_next ?Q ?i PStart d ?W] => set (w1 := W); set (id := i) end.
   assert (N1 : w_now w1 = w_now w) by reflexivity.
